@@ -76,6 +76,9 @@ fn default_net_bound() -> usize {
 fn net_boundary(cfg: &HistCfg, s: &RealState) -> bool {
     s.network.len() <= cfg.net_bound
 }
+pub fn net_boundary_g<A: Actor>(cfg: &HistCfg, s: &ActorModelState<A, Hist>) -> bool {
+    s.network.len() <= cfg.net_bound
+}
 
 #[derive(Clone, Debug, Serialize, Deserialize, PartialEq, Eq, Hash)]
 pub struct SysDesc {
@@ -95,13 +98,42 @@ pub fn key_name(k: u8) -> String {
 // The real actor
 // ------------------------------------------------------------------------------------------
 
-#[derive(Clone)]
-pub struct TActor(pub Arc<Tables>);
+/// Message types the table-driven actors can speak: a bijection with the small message alphabet.
+pub trait MsgCodec: Clone + std::fmt::Debug + Eq + std::hash::Hash + Send + Sync + 'static {
+    fn to_u8(&self) -> u8;
+    fn from_u8(m: u8) -> Self;
+}
+impl MsgCodec for u8 {
+    fn to_u8(&self) -> u8 {
+        *self
+    }
+    fn from_u8(m: u8) -> u8 {
+        m
+    }
+}
 
-pub fn emit<A: Actor<Msg = u8, Timer = u8, Random = u8>>(cmds: &[Cmd], o: &mut Out<A>) {
+/// Table-driven actor speaking message type `M`; `K` only makes distinct Rust types.
+pub struct TG<M, const K: u8 = 0>(pub Arc<Tables>, pub std::marker::PhantomData<fn() -> M>);
+impl<M, const K: u8> Clone for TG<M, K> {
+    fn clone(&self) -> Self {
+        TG(self.0.clone(), std::marker::PhantomData)
+    }
+}
+impl<M, const K: u8> TG<M, K> {
+    pub fn new(t: Arc<Tables>) -> Self {
+        TG(t, std::marker::PhantomData)
+    }
+}
+pub type TActor = TG<u8, 0>;
+#[allow(non_snake_case)]
+pub fn TActor(t: Arc<Tables>) -> TActor {
+    TG::new(t)
+}
+
+pub fn emit<M: MsgCodec, A: Actor<Msg = M, Timer = u8, Random = u8>>(cmds: &[Cmd], o: &mut Out<A>) {
     for c in cmds {
         match c {
-            Cmd::Send(d, m) => o.send(Id::from(*d), *m),
+            Cmd::Send(d, m) => o.send(Id::from(*d), M::from_u8(*m)),
             Cmd::SetTimer(t) => o.set_timer(*t, model_timeout()),
             Cmd::CancelTimer(t) => o.cancel_timer(*t),
             Cmd::Choose(k, v) => o.choose_random(key_name(*k), v.clone()),
@@ -110,8 +142,8 @@ pub fn emit<A: Actor<Msg = u8, Timer = u8, Random = u8>>(cmds: &[Cmd], o: &mut O
     }
 }
 
-impl Actor for TActor {
-    type Msg = u8;
+impl<M: MsgCodec, const K: u8> Actor for TG<M, K> {
+    type Msg = M;
     type State = u8;
     type Timer = u8;
     type Random = u8;
@@ -119,8 +151,8 @@ impl Actor for TActor {
         emit(&self.0.start.1, o);
         self.0.start.0
     }
-    fn on_msg(&self, _: Id, s: &mut Cow<u8>, _src: Id, m: u8, o: &mut Out<Self>) {
-        if let Some(r) = self.0.on_msg(**s, m) {
+    fn on_msg(&self, _: Id, s: &mut Cow<u8>, _src: Id, m: M, o: &mut Out<Self>) {
+        if let Some(r) = self.0.on_msg(**s, m.to_u8()) {
             if let Some(n) = r.new_state {
                 *s.to_mut() = n;
             }
@@ -147,19 +179,21 @@ impl Actor for TActor {
 
 pub type Hist = Vec<(bool, usize, usize, u8)>;
 
-fn rec_in(cfg: &HistCfg, h: &Hist, e: Envelope<&u8>) -> Option<Hist> {
-    if cfg.in_mod != 0 && *e.msg % cfg.in_mod == 0 && h.len() < cfg.cap {
+pub fn rec_in<M: MsgCodec>(cfg: &HistCfg, h: &Hist, e: Envelope<&M>) -> Option<Hist> {
+    let m = e.msg.to_u8();
+    if cfg.in_mod != 0 && m % cfg.in_mod == 0 && h.len() < cfg.cap {
         let mut h = h.clone();
-        h.push((true, e.src.into(), e.dst.into(), *e.msg));
+        h.push((true, e.src.into(), e.dst.into(), m));
         Some(h)
     } else {
         None
     }
 }
-fn rec_out(cfg: &HistCfg, h: &Hist, e: Envelope<&u8>) -> Option<Hist> {
-    if cfg.out_mod != 0 && *e.msg % cfg.out_mod != 0 && h.len() < cfg.cap {
+pub fn rec_out<M: MsgCodec>(cfg: &HistCfg, h: &Hist, e: Envelope<&M>) -> Option<Hist> {
+    let m = e.msg.to_u8();
+    if cfg.out_mod != 0 && m % cfg.out_mod != 0 && h.len() < cfg.cap {
         let mut h = h.clone();
-        h.push((false, e.src.into(), e.dst.into(), *e.msg));
+        h.push((false, e.src.into(), e.dst.into(), m));
         Some(h)
     } else {
         None
@@ -178,6 +212,26 @@ impl SysDesc {
     pub fn n(&self) -> usize {
         self.actors.len()
     }
+    /// The same system with every actor wrapped by `wrap` (an adapter under test).
+    pub fn wrapped_model<M: MsgCodec, A: Actor<Msg = M, Timer = u8, Random = u8>>(&self, wrap: &dyn Fn(usize, Arc<Tables>) -> A) -> ActorModel<A, HistCfg, Hist> {
+        ActorModel::new(self.hist.clone(), Vec::new())
+            .actors(self.actors.iter().enumerate().map(|(i, t)| wrap(i, Arc::new(t.clone()))))
+            .init_network(self.real_network_g::<M>())
+            .lossy_network(if self.lossy { LossyNetwork::Yes } else { LossyNetwork::No })
+            .max_crashes(self.max_crashes)
+            .record_msg_in(rec_in::<M>)
+            .record_msg_out(rec_out::<M>)
+            .within_boundary(net_boundary_g::<A>)
+            .property(stateright::Expectation::Always, "true", |_, _| true)
+    }
+    pub fn real_network_g<M: MsgCodec>(&self) -> Network<M> {
+        let envs = self.init_env.iter().map(|e| Envelope { src: Id::from(e.0), dst: Id::from(e.1), msg: M::from_u8(e.2) });
+        match self.net {
+            NetKind::Ordered => Network::new_ordered(envs),
+            NetKind::NonDup => Network::new_unordered_nonduplicating(envs),
+            NetKind::Dup => Network::new_unordered_duplicating(envs),
+        }
+    }
     pub fn real_network(&self) -> Network<u8> {
         let envs = self.init_env.iter().map(env_of);
         match self.net {
@@ -192,8 +246,8 @@ impl SysDesc {
             .init_network(self.real_network())
             .lossy_network(if self.lossy { LossyNetwork::Yes } else { LossyNetwork::No })
             .max_crashes(self.max_crashes)
-            .record_msg_in(rec_in)
-            .record_msg_out(rec_out)
+            .record_msg_in(rec_in::<u8>)
+            .record_msg_out(rec_out::<u8>)
             .within_boundary(net_boundary)
             // a property that never gets a discovery, so that a checker run is never cut short
             .property(stateright::Expectation::Always, "true", |_, _| true)
@@ -454,18 +508,18 @@ impl SysDesc {
 // is read through its public variants, not through its iterators)
 // ------------------------------------------------------------------------------------------
 
-pub fn conv_net(net: &Network<u8>) -> RNet {
-    let e = |x: &Envelope<u8>| (usize::from(x.src), usize::from(x.dst), x.msg);
+pub fn conv_net<M: MsgCodec>(net: &Network<M>) -> RNet {
+    let e = |x: &Envelope<M>| (usize::from(x.src), usize::from(x.dst), x.msg.to_u8());
     match net {
-        Network::Ordered(m) => RNet::Ordered(m.iter().map(|((a, b), q)| ((usize::from(*a), usize::from(*b)), q.clone())).collect()),
+        Network::Ordered(m) => RNet::Ordered(m.iter().map(|((a, b), q)| ((usize::from(*a), usize::from(*b)), q.iter().map(|x| x.to_u8()).collect())).collect()),
         Network::UnorderedNonDuplicating(m) => RNet::NonDup(m.iter().map(|(k, v)| (e(k), *v)).collect()),
         Network::UnorderedDuplicating(set, last) => RNet::Dup(set.iter().map(e).collect(), last.as_ref().map(e)),
     }
 }
 
-pub fn conv_state<A>(s: &ActorModelState<A, Hist>, unwrap: &dyn Fn(&A::State) -> u8) -> RState
+pub fn conv_state<M: MsgCodec, A>(s: &ActorModelState<A, Hist>, unwrap: &dyn Fn(&A::State) -> u8) -> RState
 where
-    A: Actor<Msg = u8, Timer = u8, Random = u8>,
+    A: Actor<Msg = M, Timer = u8, Random = u8>,
 {
     RState {
         actors: s.actor_states.iter().map(|a| unwrap(&**a)).collect(),
@@ -477,10 +531,10 @@ where
     }
 }
 
-pub fn conv_act(a: &RealAction) -> RAct {
+pub fn conv_act<M: MsgCodec>(a: &ActorModelAction<M, u8, u8>) -> RAct {
     match a {
-        ActorModelAction::Deliver { src, dst, msg } => RAct::Deliver((*src).into(), (*dst).into(), *msg),
-        ActorModelAction::Drop(e) => RAct::Drop(e.src.into(), e.dst.into(), e.msg),
+        ActorModelAction::Deliver { src, dst, msg } => RAct::Deliver((*src).into(), (*dst).into(), msg.to_u8()),
+        ActorModelAction::Drop(e) => RAct::Drop(e.src.into(), e.dst.into(), e.msg.to_u8()),
         ActorModelAction::Timeout(i, t) => RAct::Timeout((*i).into(), *t),
         ActorModelAction::Crash(i) => RAct::Crash((*i).into()),
         ActorModelAction::SelectRandom { actor, key, random } => RAct::Select((*actor).into(), key.clone(), *random),
@@ -537,7 +591,7 @@ pub struct Explored {
 
 /// Bounded BFS over the *real* model next to the reference; states are identified by their
 /// structural (reference-form) value, so identity defects of the real state cannot hide states.
-pub fn explore_diff<A>(
+pub fn explore_diff<M: MsgCodec, A>(
     model: &ActorModel<A, HistCfg, Hist>,
     sys: &SysDesc,
     unwrap: &dyn Fn(&A::State) -> u8,
@@ -545,7 +599,7 @@ pub fn explore_diff<A>(
     obs: &mut dyn Observer,
 ) -> Result<Explored, Fail>
 where
-    A: Actor<Msg = u8, Timer = u8, Random = u8>,
+    A: Actor<Msg = M, Timer = u8, Random = u8>,
 {
     let inits = model.init_states();
     if inits.len() != 1 {
@@ -577,7 +631,7 @@ where
         // enabled actions as multisets
         let mut acts = Vec::new();
         model.actions(&real, &mut acts);
-        let mut got: Vec<RAct> = acts.iter().map(conv_act_generic).collect();
+        let mut got: Vec<RAct> = acts.iter().map(conv_act::<M>).collect();
         let mut want = sys.ref_actions(&r);
         got.sort();
         want.sort();
@@ -591,7 +645,7 @@ where
             ));
         }
         for a in acts {
-            let ra = conv_act_generic(&a);
+            let ra = conv_act::<M>(&a);
             let real_next = model.next_state(&real, a);
             let ref_next = sys.ref_next(&r, &ra);
             transitions += 1;
@@ -637,13 +691,27 @@ where
 }
 
 // The observer only needs the network of the real state; pass a TActor-typed shell carrying it.
-fn real_as_tactor_dummy<A>(s: &ActorModelState<A, Hist>) -> RealState
+fn real_as_tactor_dummy<M: MsgCodec, A>(s: &ActorModelState<A, Hist>) -> RealState
 where
-    A: Actor<Msg = u8, Timer = u8, Random = u8>,
+    A: Actor<Msg = M, Timer = u8, Random = u8>,
 {
+    let as_u8 = |e: &Envelope<M>| Envelope { src: e.src, dst: e.dst, msg: e.msg.to_u8() };
+    let network: Network<u8> = match &s.network {
+        Network::Ordered(m) => Network::Ordered(m.iter().map(|(k, q)| (*k, q.iter().map(|x| x.to_u8()).collect())).collect()),
+        Network::UnorderedNonDuplicating(m) => {
+            let mut out = Network::new_unordered_nonduplicating([]);
+            if let Network::UnorderedNonDuplicating(o) = &mut out {
+                for (e, k) in m.iter() {
+                    o.insert(as_u8(e), *k);
+                }
+            }
+            out
+        }
+        Network::UnorderedDuplicating(set, last) => Network::new_unordered_duplicating_with_last_msg(set.iter().map(as_u8), last.as_ref().map(as_u8)),
+    };
     ActorModelState {
         actor_states: vec![],
-        network: s.network.clone(),
+        network,
         timers_set: s.timers_set.clone(),
         random_choices: s.random_choices.clone(),
         crashed: s.crashed.clone(),
@@ -651,9 +719,6 @@ where
     }
 }
 
-fn conv_act_generic(a: &ActorModelAction<u8, u8, u8>) -> RAct {
-    conv_act(a)
-}
 
 // ------------------------------------------------------------------------------------------
 // Generators
